@@ -52,6 +52,8 @@ SCHEMAS = {
     "verif-action": ([S + "/verif-action.yang"], [S]),
     "lab-telemetry": ([S + "/lab-telemetry.yang"], [S]),
     "verif-unionshapes": ([S + "/verif-unionshapes.yang"], [S]),
+    "verif-choices": ([S + "/verif-choices.yang"], [S]),
+    "verif-pkgclash": ([S + "/pkgclash/vpc-probes.yang", S + "/pkgclash/probes.yang"], [S + "/pkgclash"]),
     "verif-multi": ([S + "/multi/vm-base.yang", S + "/multi/vm-aug-a.yang", S + "/multi/vm-aug-b.yang", S + "/multi/vm-aug-c.yang", S + "/multi/vm-types.yang", S + "/multi/vm-Types.yang"], [S + "/multi"]),
     "cts": (["integration_tests/schemaops/yang/ctestschema.yang", "integration_tests/schemaops/yang/ctestschema-rootmod.yang"], ["integration_tests/schemaops/yang"]),
     "uts": (["integration_tests/schemaops/yang/utestschema.yang", "integration_tests/schemaops/yang/refschema.yang",
@@ -80,6 +82,9 @@ GO_FLAGSETS = {
                         "-enum_suffix_for_simple_union_enums"],
     "paths-split": GO_BASE + ["-compress_paths", "-generate_simple_unions", "-generate_path_structs", "-split_pathstructs_by_module",
                               "-base_import_path=example.com/verif/out", "-path_structs_split_files_count=2"],
+    "paths-split-builder": GO_BASE + ["-compress_paths", "-generate_simple_unions", "-generate_path_structs", "-split_pathstructs_by_module",
+                                      "-base_import_path=example.com/verif/out", "-list_builder_key_threshold=1", "-trim_path_package_prefix=vpc-",
+                                      "-simplify_wildcard_paths"],
 }
 PROTO_FLAGSETS = {
     "proto-flat": ["-generate_fakeroot", "-base_import_path=example.com/verif", "-go_package_base=example.com/verif/out"],
@@ -92,6 +97,8 @@ QUICK_COMBOS = [
     ("verif-clash", "go", "compress-rich-simple"), ("verif-clash", "go", "uncompressed-rich"), ("verif-clash", "go", "paths"), ("verif-clash", "proto", "proto-hier-compress"),
     ("verif-action", "go", "compress-rich-simple"), ("verif-action", "go", "paths"), ("verif-action", "proto", "proto-hier-compress"),
     ("lab-telemetry", "proto", "proto-flat"), ("verif-unionshapes", "go", "compress-rich-simple"), ("verif-unionshapes", "proto", "proto-flat"),
+    ("verif-choices", "go", "compress-rich-simple"), ("verif-choices", "go", "compress-opstate"), ("verif-choices", "go", "paths"),
+    ("verif-pkgclash", "go", "paths-split-builder"), ("verif-pkgclash", "go", "paths-split"), ("verif-multi", "go", "paths-split-builder"),
     ("verif-multi", "go", "compress-rich-simple"), ("verif-multi", "go", "uncompressed-rich"), ("verif-multi", "proto", "proto-hier-compress"),
     ("cts", "go", "compress-rich-simple"), ("uts", "go", "uncompressed-rich"), ("tm-enum-module", "go", "compress-opstate"), ("tm-enum-union", "go", "compress-rich-simple"),
     ("tm-openconfig-simple", "go", "paths-split"), ("tm-openconfig-withlist", "go", "compress-wrapper"), ("oc-options", "go", "compress-excludestate"),
